@@ -79,6 +79,10 @@ def pair_case(draw):
 def run_pair(c):
     unit = Fr(c["unit"])
     eps = float(unit) / 2 ** 20
+    preset = (c["a"][0] + c["b"][1]) % 3
+    if preset:
+        # another tolerance was in force before (an earlier design): the tolerance stated last is the one that counts
+        Rectangle.set_epsilon(eps * 4096 if preset == 1 else eps / 4096)
     Rectangle.set_epsilon(eps, eps * eps)
     a = mk(c["a"], c["unit"], c["ra"], c["fa"], c["ha"])
     b = mk(c["b"], c["unit"], c["rb"], c["fb"], c["hb"])
@@ -135,6 +139,8 @@ def run_pair(c):
                         "touches")
     if gap0 and (gx == 0 or gy == 0):
         cls.append("contact")
+        if preset:
+            cls.append("contact-after-the-tolerance-was-changed")
         # move b away from a by eps/2 (still touching) and 2*eps (not touching) along the contact axis
         for shift, exp in ((eps / 2, True), (2 * eps, False)):
             dx = (shift if eb[0] >= ea[2] else -shift if eb[2] <= ea[0] else 0.0) if gx == 0 else 0.0
@@ -223,11 +229,18 @@ def split_case(draw):
     w2, h2 = 2 * (r[2] - r[0]), 2 * (r[3] - r[1])
     cx = draw(st.one_of(st.none(), st.integers(1, w2 - 1)))
     cy = draw(st.one_of(st.none(), st.integers(1, h2 - 1)))
-    probe = draw(st.integers(-3, w2 + 3)), draw(st.integers(-3, h2 + 3))
-    ratio = draw(st.sampled_from([None, 0.01, 0.1, 0.25, 0.45, 0.5]))
+    # probe positions in units / 2^k from the lower-left corner; fine resolutions put the probe next to an edge (slivers of
+    # 0.1 % ... 5 % of the rectangle), from either end
+    pk = draw(st.sampled_from([1, 1, 6, 10]))
+    if pk == 1:
+        probe = draw(st.integers(-3, w2 + 3)), draw(st.integers(-3, h2 + 3))
+    else:
+        full = (r[2] - r[0]) * 2 ** pk, (r[3] - r[1]) * 2 ** pk
+        probe = tuple(draw(st.integers(-2, 40)) if draw(st.booleans()) else f - draw(st.integers(-2, 40)) for f in full)
+    ratio = draw(st.sampled_from([None, 0.01, 0.1, 0.25, 0.45, 0.5, 0, 0.0, 0.001, 0.03, 1]))
     grid = [draw(st.integers(1, 6)), draw(st.integers(1, 6))]
     return dict(unit=unit, r=r, region=region, fixed=draw(st.booleans()), hard=draw(st.booleans()),
-                cx=cx, cy=cy, probe=list(probe), ratio=ratio, grid=grid)
+                cx=cx, cy=cy, probe=list(probe), probe_k=pk, ratio=ratio, grid=grid)
 
 
 def _attrs(p):
@@ -325,7 +338,7 @@ def run_split(c):
     rr = Fr(0.01) if ratio is None else Fr(ratio)
     for what, f, rel, lo, hi, other in (("x_cuttable", r.x_cuttable, c["probe"][0], er[0], er[2], h),
                                         ("y_cuttable", r.y_cuttable, c["probe"][1], er[1], er[3], w)):
-        pos = lo + Fr(rel) * unit / 2
+        pos = lo + Fr(rel) * unit / 2 ** c.get("probe_k", 1)
         res = call(what, f, float(pos)) if ratio is None else call(what, f, float(pos), ratio)
         strictly = lo < pos < hi
         thin = min(pos - lo, hi - pos)
@@ -336,6 +349,10 @@ def run_split(c):
             raise Violation("%s(%s, ratio=%s) on %s is False although the thinner piece %s exceeds ratio x either side" % (
                 what, pos, ratio, er, thin), what + "-refused")
         cls.append("cut-inside" if strictly else "cut-outside")
+        if strictly and thin <= Fr(1, 100) * max(w, h):
+            cls.append("cut-leaves-a-thin-piece")
+            if rr == 0:
+                cls.append("thin-piece-with-ratio-0")
     if frx(r) != er:
         raise Violation("an operation modified the rectangle", "operand-mutated")
     # the rectangle is moved in place and split again
@@ -356,8 +373,8 @@ def run_split(c):
 
 def subchecks():
     return [
-        Sub("pairs", run_pair, strategy=pair_case(), n_quick=40000, n_thorough=800000,
-            required=("contact", "crossing", "nested", "regions-differ", "thin-overlap", "moved-in-place")),
-        Sub("splits", run_split, strategy=split_case(), n_quick=30000, n_thorough=600000,
-            required=("square", "oblong", "grid-pow2", "grid-inexact", "cut-inside", "cut-outside")),
+        Sub("pairs", run_pair, strategy=pair_case(), n_quick=40000, n_thorough=800000, fuzz_thorough=16000,
+            required=("contact", "crossing", "nested", "regions-differ", "thin-overlap", "moved-in-place", "contact-after-the-tolerance-was-changed")),
+        Sub("splits", run_split, strategy=split_case(), n_quick=30000, n_thorough=600000, fuzz_thorough=12000,
+            required=("square", "oblong", "grid-pow2", "grid-inexact", "cut-inside", "cut-outside", "cut-leaves-a-thin-piece", "thin-piece-with-ratio-0")),
     ]
